@@ -100,8 +100,13 @@ def child_main(script, path, marker, rfd, wfd, keep_fds):
                     pass
         _, fl = env.aiuti()
         io = _ChildIO(rfd, wfd)
-        fl.time = _ChildTime(io)
-        fl.fcntl = _ChildFcntl(io)
+        import time as _t
+        ct, cf = _ChildTime(io), _ChildFcntl(io)
+        table = {id(_t): ct, id(_t.time): ct.time, id(_t.monotonic): ct.time, id(_t.sleep): ct.sleep,
+                 id(fcntl): cf, id(fcntl.flock): cf.flock, id(fcntl.lockf): cf.lockf}
+        for n, v in list(vars(fl).items()):         # by identity, not by name: survives import-style refactors
+            if not n.startswith('__') and id(v) in table:
+                setattr(fl, n, table[id(v)])
         flfile = fl.__file__
 
         def ltrace(frame, event, arg):
